@@ -2,6 +2,7 @@ import WhVerif.Lemmas.C11
 import WhVerif.Lemmas.C11Geno
 import WhVerif.Lemmas.C11PolyPairs
 import WhVerif.Lemmas.C11Invariant
+import WhVerif.Lemmas.C11Glue
 /-!
 # C11 — `whatshap compare` reports the defined error counts, independent of haplotype labelling
 
@@ -406,5 +407,35 @@ theorem F45_repair_conservative (a b : Hap) (hb : IsBinary b) (ph0 ph1 : List Ha
   rfl
 
 example : IsBinary [0,1,1] ∧ agreementSecond (dipl [0,0,1]) (dipl [0,1,1]) = some [1,0,1] := by decide
+
+/-! ## F46: diploid comparison of multi-allelic calls -/
+
+/-- F46 on the model of `compare` as coded: two diploid data sets over the same three variants, the multi-allelic first
+call listed `2|1` in one and `1|2` in the other (different phasings: one switch error by definition).  `compare` reports
+0 switch errors; listing the haplotypes of the first data set in the other order (`1|2, 1|0, 1|0`) it reports 1.  With
+fixes/F46.patch (`fix46`: such a call is not assessed) both listings give the same row. -/
+theorem F46_witness :
+    let d : List Call := [⟨10,[2,1],true,1⟩, ⟨20,[0,1],true,1⟩, ⟨30,[0,1],true,1⟩]
+    let d' : List Call := [⟨10,[1,2],true,1⟩, ⟨20,[1,0],true,1⟩, ⟨30,[1,0],true,1⟩]
+    let c : List Call := [⟨10,[1,2],true,1⟩, ⟨20,[0,1],true,1⟩, ⟨30,[0,1],true,1⟩]
+    (comparePair true true true true false 2 d c).map (·.total.switches) = some 0 ∧
+    (comparePair true true true true false 2 d' c).map (·.total.switches) = some 1 ∧
+    (comparePair true true true true true 2 d c).map (fun r => (r.assessedPairs, r.total.switches)) = some (1, 0) ∧
+    (comparePair true true true true true 2 d' c).map (fun r => (r.assessedPairs, r.total.switches)) = some (1, 0) := by
+  decide
+
+/-- with fixes/F46.patch every block of assessed diploid calls (genotypes of length 2: the reader's ploidy check) that
+`compare_pair` hands to `compare_block` is a binary string and its complement — the shape `dipl a`, `IsBinary a` for which
+the diploid theorems above (identities, minimality, invariance under listing order, agreement) are proved -/
+theorem assessed_diploid_blocks_are_complementary (t : List Call) (common block : List Nat)
+    (hall : ∀ i ∈ block, ∃ ps gt, (phasesOfP true 2 t common).getD i none = some (ps, gt) ∧ gt.length = 2) :
+    IsBinary (hapOf (phasesOfP true 2 t common) block 0) ∧
+    (List.range 2).map (hapOf (phasesOfP true 2 t common) block) = dipl (hapOf (phasesOfP true 2 t common) block 0) :=
+  assessed_block_is_dipl t common block hall
+
+example : (phasesOfP true 2 [⟨10,[0,1],true,1⟩, ⟨20,[2,1],true,1⟩, ⟨30,[1,0],true,1⟩] [10,20,30])
+    = [some (1,[0,1]), none, some (1,[1,0])] ∧
+    (List.range 2).map (hapOf (phasesOfP true 2 [⟨10,[0,1],true,1⟩, ⟨20,[2,1],true,1⟩, ⟨30,[1,0],true,1⟩] [10,20,30]) [0,2])
+      = dipl [0,1] := by decide
 
 end WhVerif.Props.C11
